@@ -1163,9 +1163,9 @@ static int op_ld_st_imm(
     opcode &= 0x3fffffff;
 
     size = operands[0].attribute;
+    shift = size;
     if (size == 4) { opc = 2; }
     size = size & 0x3;
-    shift = size;
   }
     else
   {
